@@ -680,6 +680,24 @@ func inject(rt *rapid.T, v *model.Variant, m *model.Node, kind string, a active)
 			n.Leaf[g.Name] = x
 			flt.Desc += fmt.Sprintf("set %s=%s (choice path %v); ", g.Name, x, g.Choices)
 		}
+		// one time out of two, when the node has a choice nested in a case: two cases of the INNER choice and
+		// nothing from the other cases of the outer one (the inner choice is validated on its own code path)
+		if pairs := innerChoicePairs(n.SI); len(pairs) > 0 && rapid.Bool().Draw(rt, "innerpair") {
+			pr := pairs[rapid.IntRange(0, len(pairs)-1).Draw(rt, "pair")]
+			outer := pr[0].Choices[0]
+			for _, g := range n.SI.Fields {
+				if len(g.Choices) > 0 && g.Choices[0].Choice == outer.Choice && g != pr[0] && g != pr[1] {
+					delete(n.Leaf, g.Name)
+					delete(n.LL, g.Name)
+					delete(n.Cont, g.Name)
+					delete(n.List, g.Name)
+				}
+			}
+			set(pr[0])
+			set(pr[1])
+			flt.Field = "(inner choice)"
+			return flt, true
+		}
 		if len(other) > 0 {
 			// half of the time a leaf of a nested choice, when there is one: the inner choice is validated
 			// by a different code path than the outer one
@@ -723,6 +741,34 @@ func inject(rt *rapid.T, v *model.Variant, m *model.Node, kind string, a active)
 		flt.Field = "(choice)"
 	}
 	return flt, true
+}
+
+// innerChoicePairs lists the pairs of plain leaves of one struct that lie in different cases of a choice
+// which is itself nested in a case of another choice (same outer case for both).
+func innerChoicePairs(si *model.StructInfo) [][2]*model.FieldInfo {
+	var out [][2]*model.FieldInfo
+	ok := func(g *model.FieldInfo) bool {
+		return g.Kind == model.FLeaf && len(g.Choices) >= 2 && g.Type != nil && g.Type.Leafref == "" && !g.IsKey
+	}
+	for i, a := range si.Fields {
+		if !ok(a) {
+			continue
+		}
+		for _, b := range si.Fields[i+1:] {
+			if !ok(b) || len(b.Choices) != len(a.Choices) {
+				continue
+			}
+			same := true
+			last := len(a.Choices) - 1
+			for k := 0; k < last; k++ {
+				same = same && a.Choices[k] == b.Choices[k]
+			}
+			if same && a.Choices[last].Choice == b.Choices[last].Choice && a.Choices[last].Case != b.Choices[last].Case {
+				out = append(out, [2]*model.FieldInfo{a, b})
+			}
+		}
+	}
+	return out
 }
 
 // wantFor builds the GenOpts.Want predicate that makes sites for `kind` likely.
@@ -818,6 +864,9 @@ func TestC07(t *testing.T) {
 		}
 		injected.inc(kind)
 		nt := flt.Where.Depth >= 2 || flt.Where.InEntry
+		if flt.Field == "(inner choice)" {
+			classes = append(classes, "fault:two-cases-of-nested-choice")
+		}
 		rec.Case(v.Name+"|"+flt.String()+"|"+fm.Dump(), nt, append(classes, "fault:"+kind)...)
 		if rec.WantSample() {
 			rec.Sample(map[string]string{"variant": v.Name, "fault": flt.String(), "tree": th.Trunc(fm.Dump(), 1200)})
